@@ -577,6 +577,80 @@ fn main() {
                 }
             }
         }
+        "record-vkey" => {
+            // variable keys in the middle of a query (`Resources.%targets.Type`): a small enumerated
+            // family (documents x definitions of the variable x clauses), lines as record-eval --full
+            let out = m.get("out").expect("--out");
+            let full = m.get("full").map(|v| v == "1").unwrap_or(false);
+            let mut f = std::io::BufWriter::new(std::fs::File::create(out).unwrap());
+            let key = |k: &str| json!({"p":"key","k":val::cps(k)});
+            let q = |parts: Vec<J>| json!({"r":"q","q":parts,"all":true});
+            let qs = |parts: Vec<J>| json!({"r":"q","q":parts,"all":false});
+            let res = |t: &str| val::vmap(vec![("Type", val::vstr(t)), ("Size", val::vint(1))]);
+            let resources = val::vmap(vec![("r1", res("T")), ("r2", res("U")), ("r3", val::vmap(vec![("Size", val::vint(5))]))]);
+            // the Bindings section decides what the variable resolves to
+            let bindings: Vec<J> = vec![
+                val::vmap(vec![("b1", val::vmap(vec![("Target", val::vstr("r1"))])), ("b2", val::vmap(vec![("Target", val::vstr("r2"))]))]),
+                val::vmap(vec![("b1", val::vmap(vec![("Target", val::vstr("r1"))])), ("b2", val::vmap(vec![("Other", val::vint(0))]))]),
+                val::vmap(vec![("b1", val::vmap(vec![("Other", val::vint(0))])), ("b2", val::vmap(vec![("Target", val::vstr("r1"))]))]),
+                val::vmap(vec![("b1", val::vmap(vec![("Target", val::vstr("nope"))])), ("b2", val::vmap(vec![("Target", val::vstr("r3"))]))]),
+                val::vmap(vec![("b1", val::vmap(vec![("Target", val::vlist(vec![val::vstr("r1"), val::vstr("r2")]))]))]),
+                val::vmap(vec![("b1", val::vmap(vec![("Target", val::vint(5))]))]),
+                val::vmap(vec![]),
+            ];
+            let defs: Vec<(&str, J)> = vec![
+                ("query", q(vec![key("Bindings"), json!({"p":"all"}), key("Target")])),
+                ("some-query", qs(vec![key("Bindings"), json!({"p":"all"}), key("Target")])),
+                ("literal", json!({"r":"val","v":val::vstr("r1")})),
+                ("literal-list", json!({"r":"val","v":val::vlist(vec![val::vstr("r2"), val::vstr("r1")])})),
+                ("missing-key", json!({"r":"val","v":val::vstr("nope")})),
+            ];
+            let gac = |qq: Vec<J>, op: &str, on: bool, all: bool, rhs: Vec<J>| json!({"c":"gac","q":qq,"all":all,"neg":false,"op":op,"on":on,"rhs":rhs});
+            let vk = json!({"p":"vkey","n":"t"});
+            let tval = json!({"r":"val","v":val::vstr("T")});
+            let clauses: Vec<J> = vec![
+                gac(vec![key("Resources"), vk.clone(), key("Type")], "eq", false, true, vec![tval.clone()]),
+                gac(vec![key("Resources"), vk.clone(), key("Type")], "eq", false, false, vec![tval.clone()]),
+                gac(vec![key("Resources"), vk.clone(), key("Type")], "exists", false, true, vec![]),
+                gac(vec![key("Resources"), vk.clone(), key("Type")], "exists", true, true, vec![]),
+                gac(vec![key("Resources"), vk.clone()], "exists", false, true, vec![]),
+                gac(vec![key("Resources"), vk.clone(), json!({"p":"idx"}), key("Size")], "ge", false, true, vec![json!({"r":"val","v":val::vint(1)})]),
+                gac(vec![key("Resources"), vk.clone(), json!({"p":"at","i":0}), key("Type")], "eq", false, true, vec![tval.clone()]),
+                gac(vec![key("Resources"), vk.clone(), json!({"p":"at","i":1})], "exists", false, true, vec![]),
+                gac(vec![key("Missing"), vk.clone(), key("Type")], "exists", false, true, vec![]),
+                gac(vec![key("Resources"), key("r1"), key("Type"), vk.clone()], "exists", false, true, vec![]),
+            ];
+            let mut i = 0usize;
+            for b in &bindings {
+                for (_dn, d) in &defs {
+                    for (ci, c) in clauses.iter().enumerate() {
+                        for scope in 0..2 {
+                            // the variable at file level or inside the rule
+                            let doc = val::vmap(vec![("Bindings", b.clone()), ("Resources", resources.clone())]);
+                            let l = json!({"n":"t","v":d});
+                            let (flets, rlets) = if scope == 0 { (json!([l]), json!([])) } else { (json!([]), json!([l])) };
+                            let prog = json!({"lets": flets, "prules": [], "rules": [
+                                {"n": format!("r{}", ci), "w": [], "lets": rlets, "b": [[c]]},
+                                {"n": "other", "w": [], "lets": [], "b": [[gac(vec![key("Resources")], "exists", false, true, vec![])]]}]});
+                            let rules = render::render_file(&prog);
+                            let data = val::to_json_text(&doc);
+                            let obs = if full {
+                                exec::observe_full(&rules, &data)
+                            } else {
+                                let mut o = exec::observe(&rules, &data, false);
+                                if o["kind"] == "ok" {
+                                    let t = exec::status_tree(&o["tree"]);
+                                    o["tree"] = t;
+                                }
+                                o
+                            };
+                            i += 1;
+                            writeln!(f, "{}", json!({"i": i, "prog": prog, "doc": doc, "obs": obs})).unwrap();
+                        }
+                    }
+                }
+            }
+        }
         "fuzz-case" => {
             let seed: u64 = m.get("seed").and_then(|s| s.parse().ok()).unwrap_or(1);
             let i: usize = m.get("i").and_then(|s| s.parse().ok()).unwrap_or(0);
